@@ -473,14 +473,52 @@ func ruleAuthHandlerIsOperators(c *Ctx, rule string) {
 // ---- a map field that is written is never set to nil (C18.nm)
 func ruleNoNilMapField(c *Ctx, rule string) {
 	w := c.W
-	c.Rule(rule, "no struct field of map type that some function writes with m[k] = v is ever assigned nil: a request that was in flight when the table was taken away would panic on the assignment (reading a nil map is harmless, writing is not)", 0)
+	c.Rule(rule, "no struct field of map type that some function writes with m[k] = v — without first making the map where it is nil — is ever assigned nil: a request that was in flight when the table was taken away would panic on the assignment (reading a nil map is harmless, writing is not)", 0)
+	// fields that some function inserts into without making the map first where it is nil
+	// (`if x.m == nil { x.m = make(...) }` in front of the insertion is the lazy-init idiom:
+	// such a field may be nil between uses)
 	written := map[*types.Var]bool{}
 	for _, fn := range w.ModFns {
 		w.eachInstr(fn, func(in ssa.Instruction) {
-			if mu, ok := in.(*ssa.MapUpdate); ok {
-				if _, f, isL := fieldLoad(w.resolveLoad(mu.Map)); isL {
-					written[f] = true
+			mu, ok := in.(*ssa.MapUpdate)
+			if !ok {
+				return
+			}
+			_, f, isL := fieldLoad(w.resolveLoad(mu.Map))
+			if !isL {
+				if _, f, isL = fieldLoad(stripIface(mu.Map)); !isL {
+					return
 				}
+			}
+			lazy := false
+			for _, b := range fn.Blocks {
+				iff, isIf := b.Instrs[len(b.Instrs)-1].(*ssa.If)
+				if !isIf || !(b == mu.Block() || b.Dominates(mu.Block())) {
+					continue
+				}
+				for i, sb := range b.Succs {
+					for _, fc := range normCond(iff.Cond, i == 0) {
+						v, isNil, isNF := nilFact(fc)
+						if !isNF || !isNil {
+							continue
+						}
+						if _, f2, ok2 := fieldLoad(stripIface(v)); !ok2 || f2 != f {
+							continue
+						}
+						for _, i2 := range sb.Instrs {
+							if st, isSt := i2.(*ssa.Store); isSt {
+								if fa, isFA := st.Addr.(*ssa.FieldAddr); isFA && fieldOf(fa) == f {
+									if _, isMk := st.Val.(*ssa.MakeMap); isMk {
+										lazy = true
+									}
+								}
+							}
+						}
+					}
+				}
+			}
+			if !lazy {
+				written[f] = true
 			}
 		})
 	}
@@ -1082,11 +1120,28 @@ func ruleDeallocatedOnce(c *Ctx, rule string) {
 		c.Bad(rule, fname(fn), "OnDeallocated", w.pos(fn.Pos()), "Close no longer reports OnDeallocated: anchor gone")
 		return
 	}
+	closeCh := w.FieldOpt("client", "UDPConn", "closeCh")
 	for _, r := range reports {
 		ok := false
 		for _, cl := range closes {
 			if cl.Parent() == r.Parent() && instrDominates(cl, r) {
 				ok = true
+			}
+		}
+		// ... or on the edge where the closed-test said "not closed yet", inside the lock
+		// that serialises Close (the close of the channel follows in the same hold)
+		if !ok && closeCh != nil {
+			for _, f := range w.factsAt(r) {
+				if f.Op != "true" || f.Truth {
+					continue
+				}
+				if pc, _ := callOf(f.X); pc != nil && w.closedTestPred(pc.Call.StaticCallee(), closeCh) {
+					for _, cl := range closes {
+						if cl.Parent() == r.Parent() && instrDominates(r, cl) && holds(w.lockInfo().mustAt(r), "client.UDPConn.closeMutex", true) {
+							ok = true
+						}
+					}
+				}
 			}
 		}
 		if ok {
